@@ -257,6 +257,18 @@ def r1_factory(ctx, mod, pc) -> None:
             'duplicate feasible values are not rejected on every path', construct='duplicates', func=fi.qualname)
   num = [n for n in g.nodes if any(_last(c) == '_get_feasible_points_and_bounds' for c in flow.node_calls(n))]
   cat = [n for n in g.nodes if any(_last(c) == '_get_categories' for c in flow.node_calls(n))]
+
+  def reorder_only(e) -> bool:
+    """sorted(list(feasible_values)) and the like: a chain of list / tuple / sorted around the checked values, sorted among them."""
+    seen_sorted = False
+    while isinstance(e, ast.Call) and dotted(e.func) in ('list', 'sorted', 'tuple') and len(e.args) == 1 and not e.keywords:
+      seen_sorted = seen_sorted or dotted(e.func) == 'sorted'
+      e = e.args[0]
+    return seen_sorted and isinstance(e, ast.Name) and e.id == 'feasible_values'
+  # the categorical normaliser written in place: `feasible_values = sorted(list(feasible_values))`
+  cat_inline = [n for n in g.nodes if n.kind == 'stmt' and isinstance(n.ast, ast.Assign) and len(n.ast.targets) == 1
+                and isinstance(n.ast.targets[0], ast.Name) and n.ast.targets[0].id == 'feasible_values' and reorder_only(n.ast.value)]
+  cat = cat + cat_inline
   f1, f2 = _anchor_fn(mod, '_get_feasible_points_and_bounds'), _anchor_fn(mod, '_get_categories')
   t1 = unparse(f1.node, 0) if f1 else ''
   t2 = unparse(f2.node, 0) if f2 else ''
@@ -271,7 +283,8 @@ def r1_factory(ctx, mod, pc) -> None:
             'numeric feasible values: finite and sorted', fi.node,
             '_get_feasible_points_and_bounds (finiteness check, sort) is applied under the all-numeric test',
             'numeric feasible values are not normalised (finite, sorted)', construct='numeric-fv', func=fi.qualname)
-  ctx.check(under_kind_test(cat, ('str',)) and 'sorted(' in t2, 'R1', 'categorical feasible values sorted', fi.node,
+  ctx.check(under_kind_test(cat, ('str',)) and ('sorted(' in t2 or (bool(cat_inline) and len(cat_inline) == len(cat))), 'R1',
+            'categorical feasible values sorted', fi.node,
             '_get_categories sorts, applied under the all-strings test', 'categories are not sorted', construct='cat-fv', func=fi.qualname)
   # the normalisers only re-order: the values they return are the values the duplicate test saw (a per-element
   # conversion such as float(v) can map distinct values to one)
